@@ -9,6 +9,9 @@ tvars == <<l, issued, started>>
 TInit == l = 1 /\ issued = {} /\ started = {}
 TStart == /\ l <= Len(TraceLog) /\ TraceLog[l].e = "Start" /\ started' = started \cup {TraceLog[l].p}
           /\ l' = l + 1 /\ UNCHANGED issued
+\* a forked child / a thread of a running context becomes a context of its own (NixIds!Fork, NixIds!Thread)
+TSpawn == /\ l <= Len(TraceLog) /\ TraceLog[l].e \in {"Fork", "Thread"} /\ TraceLog[l].parent \in started
+          /\ started' = started \cup {TraceLog[l].p} /\ l' = l + 1 /\ UNCHANGED issued
 \* CreateId(p): enabled only for a running process and an id that was never issued before
 TCreate == /\ l <= Len(TraceLog) /\ TraceLog[l].e = "CreateId" /\ TraceLog[l].p \in started
            /\ TraceLog[l].wellformed /\ TraceLog[l].id \notin issued
@@ -16,7 +19,7 @@ TCreate == /\ l <= Len(TraceLog) /\ TraceLog[l].e = "CreateId" /\ TraceLog[l].p 
 \* a later re-read of an entity's id (same or other session / process): must be the id issued at creation
 TReread == /\ l <= Len(TraceLog) /\ TraceLog[l].e = "Reread" /\ TraceLog[l].id = TraceLog[l].created /\ TraceLog[l].id \in issued
            /\ l' = l + 1 /\ UNCHANGED <<issued, started>>
-TNext == TStart \/ TCreate \/ TReread
+TNext == TStart \/ TSpawn \/ TCreate \/ TReread
 TSpec == TInit /\ [][TNext]_tvars
 \* the recorded execution is one line of events: position l determines the state, so the fingerprint need not hash the id set
 TView == l
